@@ -27,7 +27,13 @@
       …_tabFree                             with `'\t' ∉ src` in place of `NoSplitTab`
       doc_starts_on_bytes                   every attribute-rendering node starts at a byte that is not a LF
   (ingredients: `Block.parseBlocks_anchored`, `Block.LX.Y.parseBlocks_crlf_strict`, `C10SP.parseInline_exact`,
-  `doc_placeholder_segs` / `tr_shift`, `doc_ranges_ok` of Props/C05Rest.lean).
+  `doc_placeholder_segs` / `tr_shift`, `doc_ranges_ok` of Props/C05Rest.lean), and in part 5 for EVERY source,
+  tabs split by containers included (`NoSplitTab` dropped; markers `C05T.SolidMarkers`):
+      doc_final_newline_invariant_sp_all    sourcepos on, src does not end with LF / CR, `hsmall`, `hpara`, `hmk`
+      doc_crlf_invariant_sp_all             the same + '\r' ∉ src + the inline pass does not panic on src
+      doc_starts_on_bytes_all
+  (ingredients: `doc_placeholder_segsT` / `tr_shiftT` / `tr_onByteT` / `mapT_shift`, `C10SP.parseInline_exactT`,
+  `doc_ranges_ordered_all` of Props/C05Tabs.lean).
 
   What decides (found with `#eval` on the model, then proved as the lemmas of
   `Lemmas/C10SourceposPos.lean`): `get_position(o)` is the state of a fold over the characters that start
@@ -52,6 +58,8 @@
 import MdIt.Lemmas.C10SourceposDoc
 import MdIt.Lemmas.C10SpFullFinal
 import MdIt.Lemmas.C10SpFullInline
+import MdIt.Lemmas.C10SpTabsFinal
+import MdIt.Lemmas.C10SpTabsInline
 
 namespace MdIt.Pipeline
 open MdIt
@@ -434,6 +442,89 @@ example (x : Bool) : renderDoc x (exCfg true 100) (exDoc3 ++ ['\n']) = renderDoc
       theorems assume the rule.  The HTML is still invariant on samples (part 2, examples (2), (3)).
    4. `hsmall`, `hmk` — the `i32` fields of the block state; single-byte emphasis markers (with a multi-byte
       marker the inline model panics as soon as the rule fires, Props/C05Rest.lean).
+-/
+
+
+/-! # Part 5: ALL sources — split tabs included (no `NoSplitTab`)
+
+  The table class of Props/C05Tabs.lean instead of `Inline.MapOK`:
+   * `doc_placeholder_segsT` (`Lemmas/C10SpTabsTables.lean`): EVERY placeholder table is segmented by
+     `C05T.tf_Seg` — real entries (a LF-free copy of source bytes) and virtual entries (a run of spaces of
+     the inline text sitting on ONE source offset); `tr_shiftT`: EVERY position of the inline text is
+     translated to `a` / `a + #LF before a` under the table / its shifted copy (inside a virtual segment
+     both are the clamp); `tr_onByteT`: a character other than LF and space lies in a real segment;
+     `mapT_shift`: the shifted table is `C05T.MapT`;
+   * `C10SP.parseInline_exactT` (`Lemmas/C10SpTabsInline*.lean`): the exact inline simulation for `MapT`
+     tables (attribute-rendering nodes start at their marker character, which is solid: `C10SP.SameSpanT`);
+   * `a ≤ b ≤ |src|` at every node: `doc_ranges_ordered_all` (Props/C05Tabs.lean).
+  The marker hypothesis becomes `C05T.SolidMarkers` (single byte, not LF, not space: `*`, `_`, `~`). -/
+
+theorem inlineExactThmT (icfg : Inline.Cfg) (hmk : C05T.SolidMarkers icfg.chain) : InlineExactThmT icfg :=
+  C10SP.parseInline_exactT' icfg hmk
+
+/-- every attribute-rendering node of the parsed tree starts at a byte that is not a line feed — every source -/
+theorem doc_starts_on_bytes_all (cfg : DocCfg) (src : List Char) (hsp : cfg.sourcepos = true)
+    (hsmall : 4 * Lines.byteLen src + 8 < 2147483648) (hpara : cfg.hasPara = true)
+    (hmk : C05T.SolidMarkers cfg.inlineChain) {t : Node} (h : parseDoc cfg src = .ok t) :
+    Every (fun n => n.kind.rendersAttrs = true → ∀ a b, n.range = some (a, b) → OnByteLf src a) t :=
+  doc_anchoredT cfg src hsp (fun _ => inlineExactThmT _ hmk) hsmall hpara h
+
+/-- **C10 with sourcepos, final newline, EVERY source** (tabs split by containers included): a final LF does
+    not change the HTML with its `data-sourcepos` attributes. -/
+theorem doc_final_newline_invariant_sp_all (x : Bool) (cfg : DocCfg) (src : List Char)
+    (hsp : cfg.sourcepos = true) (hlast : src.getLast? ≠ some '\n' ∧ src.getLast? ≠ some '\r')
+    (hsmall : 4 * Lines.byteLen src + 8 < 2147483648) (hpara : cfg.hasPara = true)
+    (hmk : C05T.SolidMarkers cfg.inlineChain) :
+    renderDoc x cfg (src ++ ['\n']) = renderDoc x cfg src :=
+  doc_final_newline_sp_of_inlineT x cfg src hsp hlast (fun _ => inlineExactThmT _ hmk) hsmall hpara hmk
+
+/-- **C10 with sourcepos, LF ↦ CR LF, EVERY CR-free source** (tabs split by containers included), provided
+    (`hinl`, as without the plugin) the inline pass does not panic on `src`. -/
+theorem doc_crlf_invariant_sp_all (x : Bool) (cfg : DocCfg) (src : List Char)
+    (hsp : cfg.sourcepos = true) (hcr : '\r' ∉ src)
+    (hinl : ∀ e, parseDoc cfg src ≠ .error (.inline e))
+    (hsmall : 4 * Lines.byteLen src + 8 < 2147483648) (hpara : cfg.hasPara = true)
+    (hmk : C05T.SolidMarkers cfg.inlineChain) :
+    renderDoc x cfg (lfToCrlf src) = renderDoc x cfg src :=
+  doc_crlf_sp_of_inlineT x cfg src hsp hcr hinl (fun _ => inlineExactThmT _ hmk) hsmall hpara hmk
+
+/-! ## non-vacuity: a document whose tab IS split -/
+
+/-- the second paragraph of the list item starts with a tab that straddles the content column: its table has
+    a virtual-space entry (`NoSplitTab` fails), the emphasis starts behind the virtual spaces -/
+def exDocTab : List Char := "- a\n\n \t*b*\n  `c\n\td`".toList
+
+/-- … it really is split: some placeholder table has two consecutive entries with the same source offset -/
+example : (match Block.parseBlocks (exCfg true 100).blockCfg exDocTab with
+    | .ok (root, _) => allNoVirtB root
+    | .error _ => true) = false := by decide +kernel
+
+theorem exDocTab_hyps :
+    '\r' ∉ exDocTab ∧ (exDocTab.getLast? ≠ some '\n' ∧ exDocTab.getLast? ≠ some '\r') ∧
+    4 * Lines.byteLen exDocTab + 8 < 2147483648 ∧ (exCfg true 100).hasPara = true ∧
+    ∀ e, parseDoc (exCfg true 100) exDocTab ≠ .error (.inline e) :=
+  ⟨by decide, by decide, by decide, by decide, not_inline_of (by decide +kernel)⟩
+
+example (x : Bool) : renderDoc x (exCfg true 100) (lfToCrlf exDocTab) = renderDoc x (exCfg true 100) exDocTab :=
+  doc_crlf_invariant_sp_all x _ _ rfl exDocTab_hyps.1 exDocTab_hyps.2.2.2.2 exDocTab_hyps.2.2.1
+    exDocTab_hyps.2.2.2.1 (exCfg_solidMarkers true 100)
+
+example (x : Bool) : renderDoc x (exCfg true 100) (exDocTab ++ ['\n']) = renderDoc x (exCfg true 100) exDocTab :=
+  doc_final_newline_invariant_sp_all x _ _ rfl exDocTab_hyps.2.1 exDocTab_hyps.2.2.1
+    exDocTab_hyps.2.2.2.1 (exCfg_solidMarkers true 100)
+
+/-- the positions in question (the emphasis and the code span sit behind split tabs) -/
+example : (parseDoc (exCfg true 100) exDocTab).toOption.map
+      (fun t => (spValues t).filter (fun p => p.1 = .E ∨ p.1 = .C)) =
+    some [(.E, "3:3-3:5".toList), (.C, "4:3-5:3".toList)] := by decide +kernel
+
+/-
+  OPEN after part 5 (what separates `doc_final_newline_invariant_sp_all` / `doc_crlf_invariant_sp_all` from
+  hypothesis-free statements): `hinl` (CR LF only: equal inline PANICS under the two tables), `hpara` (the
+  no-paragraph fallback tables are not `get_lines` tables), `hsmall` (the `i32` fields), `hmk`
+  (`SolidMarkers`: the inline theorems of Props/C05Tabs.lean and the token invariant of the exact
+  simulation need single-byte markers other than LF and space; necessary for LF:
+  `C10SP.InlineWitness.lf_not_exact_aux`).  `NoSplitTab` is gone.
 -/
 
 end MdIt.Pipeline
